@@ -2,8 +2,8 @@
    The layouts are DATA (Blocks.v, Entry.v): lists of fields with kind and width.  The library's
    writer is modelled by [enc] = the layout interpreter with zeros in the don't-care bytes;
    "layout-conformant bytes" are the outputs of the free interpreter [encj] with any junk. *)
-From Model Require Import Base Fmt Segments Blocks.
-From Proofs Require Import BaseFacts StrFacts FmtFacts.
+From Model Require Import Base Fmt Segments Blocks Container.
+From Proofs Require Import BaseFacts StrFacts FmtFacts ContainerFacts ContainerProps.
 Open Scope Z_scope.
 
 (* the library's own output is an instance of the layout-driven encoder *)
@@ -68,6 +68,26 @@ Proof. exact encj_size. Qed.
 Print Assumptions C06_size.
 
 (* the fixed records have the documented widths (computed from the layout data) *)
+(* the file header and the jump table are layouts too (64 and 288 bytes), and a whole file written from
+   a state reads back as that state: header, every entry, and the data region untouched after them *)
+Theorem C06_header_entry_sizes : forall jk off version n cd md ad e hb eb,
+  encj header_fmt jk off (header_v version n cd md ad) = Some hb ->
+  encj entry_fmt jk off (entry_v e) = Some eb ->
+  zlength hb = 64 /\ zlength eb = 288.
+Proof.
+  intros jk off version n cd md ad e hb eb Hh He. apply encj_size in Hh. apply encj_size in He.
+  split; [rewrite Hh|rewrite He]; reflexivity.
+Qed.
+Print Assumptions C06_header_entry_sizes.
+
+Theorem C06_whole_file : forall version cd md ad s bs,
+  wfb header_fmt (header_v version (s_n s) cd md ad) = true ->
+  Forall (fun e => wfb entry_fmt (entry_v e) = true) (tab s) -> zlength (tab s) = s_n s ->
+  file_bytes version cd md ad s = Some bs ->
+  parse_file bs = Some (header_v version (s_n s) cd md ad, map entry_v (tab s), data s).
+Proof. exact parse_file_bytes. Qed.
+Print Assumptions C06_whole_file.
+
 Example C06_record_widths :
   size os_channel (VL [VI 0; VL []; vints []; vints []; vints []; VL [VL [VI 0; VI 0]; VL [VI 0; VI 0]]]) = 120 /\
   size pc_platform (VL [vints []; VL [VI 0; VI 0]; VL (repeat (VI 0) 12); VL []]) = 568 /\
